@@ -110,7 +110,20 @@ func (interp *Interpreter) gta(root *node, rpath, importPath, pkgName string) ([
 			return false
 
 		case defineXStmt:
-			err = compDefineX(sc, n)
+			if err = compDefineX(sc, n); err != nil {
+				return false
+			}
+			// The variables are global: flag their symbols as such, so they are
+			// addressed in the global frame from any function, and set their
+			// defining node, used to determine the initialization order.
+			for _, c := range n.child[:n.nleft] {
+				if sym := sc.sym[c.ident]; sym != nil && c.ident != "_" {
+					sym.global = true
+					if sym.node == nil {
+						sym.node = n
+					}
+				}
+			}
 
 		case valueSpec:
 			l := len(n.child) - 1
